@@ -751,11 +751,15 @@ class introduction(Method):
         cur_item.subproof = pt.export(prefix=id)
         state.check_proof(compute_only=True)
 
-        # Test if the goal is already proved
-        for item in cur_item.subproof.items:
-            new_id = state.find_goal(state.get_proof_item(item.id).th, item.id)
-            if new_id is not None:
-                state.replace_id(item.id, new_id)
+        # Test if the goal is already proved. Only the gaps of the new block
+        # are goals (not its assumptions, nor the line that closes it). They are
+        # visited from the last to the first: removing a line renumbers the
+        # lines after it.
+        for item in reversed(list(cur_item.subproof.items)):
+            if item.rule == 'sorry':
+                new_id = state.find_goal(state.get_proof_item(item.id).th, item.id)
+                if new_id is not None:
+                    state.replace_id(item.id, new_id)
 
 
 @register_method('revert_intro')
